@@ -10,6 +10,7 @@ import (
 	"io"
 	"os"
 	"sort"
+	"strings"
 	"sync"
 
 	"github.com/syndtr/goleveldb/leveldb/storage"
@@ -64,6 +65,7 @@ type LogEntry struct {
 	FType string
 	Num   int64
 	N     int
+	Op    int // value of the mutating-operation counter when the entry was made
 }
 
 type file struct {
@@ -108,6 +110,9 @@ type FS struct {
 
 	text []string // DB log lines (TextLog)
 
+	keptNotes int // number of "tables kept" lines the DB logged
+	keptAt    int // operation counter at the last of them
+
 	// optional hook invoked (without the lock) before every mutating op
 	Hook func(kind string, fd storage.FileDesc)
 }
@@ -121,6 +126,26 @@ func New() *FS {
 
 // Ops returns the number of mutating operations performed so far.
 func (v *FS) Ops() int { v.mu.Lock(); defer v.mu.Unlock(); return v.ops }
+
+// KeptTables reports whether the DB logged that it keeps the tables of a discarded transaction
+// (manifest not replaceable) and no manifest has been installed (SetMeta) since.
+func (v *FS) KeptTables() bool {
+	v.mu.Lock()
+	defer v.mu.Unlock()
+	if v.keptNotes == 0 {
+		return false
+	}
+	for i := len(v.log) - 1; i >= 0; i-- {
+		e := v.log[i]
+		if e.Op != 0 && e.Op <= v.keptAt {
+			break
+		}
+		if e.Kind == OpSetMet && e.Op > v.keptAt {
+			return false
+		}
+	}
+	return true
+}
 
 // Reads returns the number of non-mutating operations (open, read, list) so far.
 func (v *FS) Reads() int { v.mu.Lock(); defer v.mu.Unlock(); return v.reads }
@@ -350,6 +375,7 @@ func (v *FS) step(kind string, fd storage.FileDesc, n int, mut bool) (Fault, err
 	}
 	if mut {
 		v.ops++
+		e.Op = v.ops
 		if v.crashAt > 0 && v.ops == v.crashAt && v.image == nil {
 			v.image = v.snapshotLocked(v.tail)
 			v.crashOp = e
@@ -400,6 +426,14 @@ func (v *FS) IsLocked() bool { v.mu.Lock(); defer v.mu.Unlock(); return v.locked
 // TextLog is on (debugging aid: they are then kept, interleaved with the
 // storage operations, and returned by Text).
 func (v *FS) Log(s string) {
+	if strings.Contains(s, "tables kept") {
+		// the DB says it could not replace its manifest when discarding a transaction and keeps
+		// the transaction's tables for now (see known finding F27)
+		v.mu.Lock()
+		v.keptNotes++
+		v.keptAt = v.ops
+		v.mu.Unlock()
+	}
 	if !TextLog {
 		return
 	}
